@@ -47,7 +47,7 @@ def cases(tier, seed):
                 for (nt, nx, cart) in ((1, 1, True), (2, 3, True), (3, 2, True), (2, 2, False), (3, 3, False)):
                     # the prescribed initial state may be returned as a vector of components, or (single output)
                     # as a 0-d array / Python-like scalar per point
-                    for icshape in (("vec", "0d") if n_out == 1 else ("vec",)):
+                    for icshape in (("vec", "0d", "float") if n_out == 1 else ("vec",)):
                         out.append(dict(type="ic", kind="nonstatio", d=d, n_out=n_out, weight=w, nt=nt, nx=nx, cart=cart, icshape=icshape))
     # normalisation
     for kind in ("statio", "nonstatio"):
@@ -108,7 +108,9 @@ def run_case(case):
             else:
                 pts = np.concatenate([tpts[:, None], xpts], axis=1)
             amp = np.array([1.0, -0.5][:n_out])
-            if case.get("icshape", "vec") == "0d":
+            if case.get("icshape", "vec") == "float":
+                ic = lambda x: 0.75
+            elif case.get("icshape", "vec") == "0d":
                 ic = lambda x: amp[0] * jnp.sin(x[0]) + 0.1 * jnp.sum(x)
             else:
                 ic = lambda x: jnp.asarray(amp) * jnp.sin(x[0]) + 0.1 * jnp.sum(x)
@@ -118,6 +120,8 @@ def run_case(case):
             X = pts[:, 1:]
             U0 = L.jets(coef, expo, np.concatenate([np.zeros((len(X), 1)), X], axis=1), [()])[()].T  # (rows, n_out)
             target = amp[None, :] * np.sin(X[:, :1]) + 0.1 * np.sum(X, axis=1, keepdims=True)
+            if case.get("icshape", "vec") == "float":
+                target = np.full((len(X), 1), 0.75)
             exp = float(np.mean(np.sum(np.asarray(wv) * (target - U0) ** 2, axis=-1)))
         got = float(L.jit_eval(loss, params, batch)[1]["initial_condition"])
         if not close(got, exp):
